@@ -13,7 +13,7 @@ set_option linter.unusedVariables false
 
 namespace Inkayaku.Rs
 
-/-- `fn zobrist_xor(mv: Move) ->(ZobristHash, ZobristHash)` in `impl Bitboard` (board/src/board.rs:910).
+/-- `fn zobrist_xor(mv: Move) ->(ZobristHash, ZobristHash)` in `impl Bitboard` (board/src/board.rs:902).
 * `mv_bits` = field `mv.bits: u64`
 * `Zobrist_BLACK_TO_MOVE_HASH` = OPAQUE associated function `Self::Zobrist_BLACK_TO_MOVE_HASH`
 * `Zobrist_castle_hash` = OPAQUE associated function `Self::Zobrist_castle_hash`
